@@ -4,6 +4,8 @@ package main
 
 import (
 	"fmt"
+	"time"
+
 	"github.com/tikv/client-go/v2/verifx/hub"
 	"github.com/tikv/client-go/v2/verifx/vx"
 )
@@ -59,7 +61,7 @@ func c02Scenario(s shape, i int, after bool, extra int, r *vx.Rand) {
 	sr.final()
 	if side != nil {
 		// the side client may be blocked by the victim's locks until the clock moves
-		if !waitUntil(scenarioTimeout/10, func() bool {
+		if !waitUntil(2*time.Second, func() bool {
 			select {
 			case <-side:
 				return true
